@@ -524,6 +524,9 @@ func (h *c17Run) opRestoreReader(k int, sc c17xScript) {
 }
 
 func (h *c17Run) genRestore(r *rng, k int) {
+	if k < 0 { // the snapshot that should have produced the file failed
+		k = 0
+	}
 	if k < len(h.files) && r.chance(55) {
 		h.opRestoreReader(k, c17xGenScript(r, len(h.files[k])))
 		return
